@@ -55,6 +55,15 @@ struct Scenario {
     // the signer runs on testnet: a network with compiled-in checkpoints, which
     // Node::restore_node consults on every restart
     testnet: bool,
+    // the channel is set up between two chunks of a streamed block
+    midstream: Option<MidKind>,
+}
+
+#[derive(Clone, Copy, Debug, PartialEq)]
+enum MidKind {
+    Connects,       // the block in flight is then connected
+    Orphan,         // ... is refused: it does not build on the tip (the start of a reorg)
+    RefusedRemoval, // the chunks belong to a RemoveBlock, which the tracker refuses
 }
 
 impl Scenario {
@@ -67,7 +76,7 @@ impl Scenario {
     }
     fn label(&self) -> String {
         format!(
-            "{}-{}-{}{}{}",
+            "{}-{}-{}{}{}{}",
             if self.closer_cp { "cp" } else { "holder" },
             self.htlcs
                 .iter()
@@ -80,7 +89,11 @@ impl Scenario {
                 .join(""),
             if self.our_output { "our" } else { "noour" },
             if self.no_info { "-noinfo" } else if self.lockstep { "-lockstep" } else { "" },
-            if self.testnet { "-testnet" } else { "" }
+            if self.testnet { "-testnet" } else { "" },
+            match self.midstream {
+                Some(k) => format!("-midstream{:?}", k),
+                None => String::new(),
+            }
         )
     }
 }
@@ -101,6 +114,10 @@ struct World {
     funding: Transaction,
     commitment: Transaction,
     h0: u32,
+    // monitor height minus tracker height, as the unchanged code has it: 0, or -1 for a channel
+    // set up inside a streamed block that then connected (the new monitor ignores the rest
+    // of that block, including its end)
+    height_offset: i64,
     // blocks connected through the tracker, with the headers they were built on
     stack: Vec<(Block, Headers)>,
 }
@@ -126,6 +143,35 @@ fn make_world(sc: &Scenario) -> World {
         let proof = TxoProof::prove_unchecked(&block, &prev.1, 1);
         tracker.add_block(block.header, proof).expect("first block");
     }
+    // a streamed block is in flight while the channel is set up
+    let mut in_flight: Option<(Block, Headers, Block, Headers, Vec<u8>, usize)> = None;
+    let mut birth_height: Option<u32> = None;
+    if let Some(kind) = sc.midstream {
+        let mut tracker = node_ctx.node.get_tracker();
+        let mut last: Option<(Block, Headers)> = None;
+        for i in 0..2 {
+            let prev = tracker.tip().clone();
+            let block = build_block(prev.0, vec![coinbase(900 + i)]);
+            let proof = TxoProof::prove_unchecked(&block, &prev.1, tracker.height() + 1);
+            tracker.add_block(block.header, proof).expect("prelude block");
+            last = Some((block, prev));
+        }
+        let (tip_block, tip_prev) = last.unwrap();
+        let tip = tracker.tip().clone();
+        // what is streamed: a block on the tip, a block on the tip's parent, or the tip itself
+        let (block, base) = match kind {
+            MidKind::Connects => (build_block(tip.0, vec![coinbase(990)]), tip.clone()),
+            MidKind::Orphan => (build_block(tip_prev.0, vec![coinbase(991)]), tip_prev.clone()),
+            MidKind::RefusedRemoval => (tip_block.clone(), tip_prev.clone()),
+        };
+        let bytes = serialize(&block);
+        // the header (and with it the block start event) goes out in the first chunk
+        assert!(bytes.len() > 100, "streamed block too small to cut after the header");
+        let cut = 92;
+        tracker.block_chunk(block.block_hash(), 0, &bytes[..cut]).expect("first chunk");
+        birth_height = Some(tracker.height());
+        in_flight = Some((block, base, tip_block, tip_prev, bytes, cut));
+    }
     let channel_amount = 3_000_000;
     let stype = SpendType::P2wpkh;
     let incoming = channel_amount + 2_000_000;
@@ -140,6 +186,24 @@ fn make_world(sc: &Scenario) -> World {
     let mut tx = tx_ctx.to_tx();
     let st = funding_tx_setup_channel(&node_ctx, &mut chan_ctx, &tx, outpoint_ndx);
     assert!(st.is_none(), "setup_channel: {:?}", st);
+    let mut height_offset = 0i64;
+    if let Some((block, base, _tip_block, tip_prev, bytes, cut)) = in_flight {
+        // the rest of the block, then the request it belongs to
+        let kind = sc.midstream.unwrap();
+        let mut tracker = node_ctx.node.get_tracker();
+        tracker.block_chunk(block.block_hash(), cut as u32, &bytes[cut..]).expect("second chunk");
+        let height = if kind == MidKind::Connects { tracker.height() + 1 } else { tracker.height() };
+        let p = TxoProof::prove_unchecked(&block, &base.1, height);
+        let ext = TxoProof { attestations: p.attestations, proof: ProofType::ExternalBlock() };
+        match kind {
+            MidKind::Connects => {
+                tracker.add_block(block.header, ext).expect("the streamed block connects");
+                height_offset = -1;
+            }
+            MidKind::Orphan => assert!(tracker.add_block(block.header, ext).is_err(), "an orphan was connected"),
+            MidKind::RefusedRemoval => assert!(tracker.remove_block(ext, tip_prev).is_err(), "a streamed removal was accepted"),
+        }
+    }
     let mut commit_tx_ctx = channel_initial_holder_commitment(&node_ctx, &chan_ctx);
     let (csig, hsigs) = counterparty_sign_holder_commitment(&node_ctx, &chan_ctx, &mut commit_tx_ctx);
     validate_holder_commitment(&node_ctx, &chan_ctx, &commit_tx_ctx, &csig, &hsigs)
@@ -166,8 +230,9 @@ fn make_world(sc: &Scenario) -> World {
         c.tx.as_ref().unwrap().trust().built_transaction().transaction.clone()
     };
     apply_signer_state(&node, &chan_ctx.channel_id, sc);
-    let h0 = node.get_tracker().height();
-    World { pw, node_ctx, chan_ctx, key, funding: tx, commitment, h0, stack: vec![] }
+    // the height the monitor is born at: the tracker's height when the channel is set up
+    let h0 = birth_height.unwrap_or(node.get_tracker().height());
+    World { height_offset, pw, node_ctx, chan_ctx, key, funding: tx, commitment, h0, stack: vec![] }
 }
 
 const COMMIT_NUM: u64 = 1;
@@ -598,6 +663,13 @@ impl Driver {
         Driver { w, direct, mon, watches, seen, dstack: vec![], init, forgot }
     }
 
+    /// (the monitor's own height, ChainState::current_height, the tracker's height)
+    fn heights(&self) -> (i64, i64, i64) {
+        let c = self.mon.as_base().as_chain_state();
+        let h = serde_json::to_value(&*self.mon.get_state()).unwrap()["height"].as_i64().unwrap();
+        (h, c.current_height as i64, self.w.node_ctx.node.get_tracker().height() as i64)
+    }
+
     /// tip, height and the number of remembered headers of the tracker
     fn tracker_view(&self) -> Value {
         let t = self.w.node_ctx.node.get_tracker();
@@ -881,6 +953,30 @@ fn run_case(sc: &Scenario, u: &Universe, steps: &[Step], direct: bool, forgot: b
     let mut last_view: Option<Value> = None;
     let mut steps_removed: Vec<Vec<u64>> = vec![];
     let sparse_replay = steps.len() > 60;
+    // the monitor's height follows the tracker's (right after the set-up and after every delivery)
+    let check_heights = |d: &Driver, step: i64| -> Option<Value> {
+        if d.direct {
+            return None;
+        }
+        let (mh, ch, th) = d.heights();
+        if mh != th + d.w.height_offset || ch != mh {
+            Some(json!({
+                "what": if mh > th || ch > th {
+                    "the channel monitor's height (ChainState::current_height for the validators) is ahead of the height of the tracker's best chain"
+                } else {
+                    "the channel monitor's height (ChainState::current_height for the validators) is not what the best chain implies (tracker height, or one less for a channel set up inside a streamed block that connected)"
+                },
+                "step": step,
+                "monitor_height": mh, "chain_state_current_height": ch, "tracker_height": th,
+                "expected_monitor_minus_tracker": d.w.height_offset,
+            }))
+        } else {
+            None
+        }
+    };
+    if admissible {
+        violation = check_heights(&d, -1);
+    }
     let real = |b: &Vec<u64>| -> Vec<Transaction> { b.iter().map(|i| u.txs[i].real.clone()).collect() };
     for (sti, st) in steps.iter().enumerate() {
         // must the tracker accept this disconnection?  (not below the creation height, not more
@@ -1027,6 +1123,9 @@ fn run_case(sc: &Scenario, u: &Universe, steps: &[Step], direct: bool, forgot: b
         let o = d.obs(u);
         coq_obs.push(o.coq.clone());
         last_view = Some(o.view.clone());
+        if admissible && violation.is_none() {
+            violation = check_heights(&d, jsteps.len() as i64 - 1);
+        }
         // the recorded close must be the one of the confirmed transaction: our output and the
         // claimable HTLC outputs as the harness built them
         if admissible && violation.is_none() {
@@ -1124,17 +1223,17 @@ fn scenarios() -> Vec<Scenario> {
     let h = |o: bool, a: u64, p: bool| HtlcSpec { offered: o, amount_sat: a, preimage_known: p };
     let mut v = vec![];
     for closer_cp in [false, true] {
-        v.push(Scenario { closer_cp, htlcs: vec![], our_output: true, no_info: false, lockstep: false, testnet: false });
-        v.push(Scenario { closer_cp, htlcs: vec![h(true, 10_000, closer_cp)], our_output: true, no_info: false, lockstep: false, testnet: false });
-        v.push(Scenario { closer_cp, htlcs: vec![h(true, 10_000, true), h(false, 12_000, true)], our_output: true, no_info: false, lockstep: false, testnet: false });
-        v.push(Scenario { closer_cp, htlcs: vec![h(true, 10_000, false), h(false, 12_000, false)], our_output: true, no_info: false, lockstep: false, testnet: false });
-        v.push(Scenario { closer_cp, htlcs: vec![h(!closer_cp, 11_000, false)], our_output: false, no_info: false, lockstep: false, testnet: false });
-        v.push(Scenario { closer_cp, htlcs: vec![], our_output: false, no_info: false, lockstep: false, testnet: false });
+        v.push(Scenario { closer_cp, htlcs: vec![], our_output: true, no_info: false, lockstep: false, testnet: false, midstream: None });
+        v.push(Scenario { closer_cp, htlcs: vec![h(true, 10_000, closer_cp)], our_output: true, no_info: false, lockstep: false, testnet: false, midstream: None });
+        v.push(Scenario { closer_cp, htlcs: vec![h(true, 10_000, true), h(false, 12_000, true)], our_output: true, no_info: false, lockstep: false, testnet: false, midstream: None });
+        v.push(Scenario { closer_cp, htlcs: vec![h(true, 10_000, false), h(false, 12_000, false)], our_output: true, no_info: false, lockstep: false, testnet: false, midstream: None });
+        v.push(Scenario { closer_cp, htlcs: vec![h(!closer_cp, 11_000, false)], our_output: false, no_info: false, lockstep: false, testnet: false, midstream: None });
+        v.push(Scenario { closer_cp, htlcs: vec![], our_output: false, no_info: false, lockstep: false, testnet: false, midstream: None });
         // both sides' commitment N held, one of them confirms
-        v.push(Scenario { closer_cp, htlcs: vec![h(true, 10_000, true), h(false, 12_000, true)], our_output: true, no_info: false, lockstep: true, testnet: false });
-        v.push(Scenario { closer_cp, htlcs: vec![h(true, 10_000, false), h(false, 12_000, false)], our_output: true, no_info: false, lockstep: true, testnet: false });
-        v.push(Scenario { closer_cp, htlcs: vec![h(!closer_cp, 11_000, closer_cp)], our_output: true, no_info: false, lockstep: true, testnet: false });
-        v.push(Scenario { closer_cp, htlcs: vec![], our_output: true, no_info: false, lockstep: true, testnet: false });
+        v.push(Scenario { closer_cp, htlcs: vec![h(true, 10_000, true), h(false, 12_000, true)], our_output: true, no_info: false, lockstep: true, testnet: false, midstream: None });
+        v.push(Scenario { closer_cp, htlcs: vec![h(true, 10_000, false), h(false, 12_000, false)], our_output: true, no_info: false, lockstep: true, testnet: false, midstream: None });
+        v.push(Scenario { closer_cp, htlcs: vec![h(!closer_cp, 11_000, closer_cp)], our_output: true, no_info: false, lockstep: true, testnet: false, midstream: None });
+        v.push(Scenario { closer_cp, htlcs: vec![], our_output: true, no_info: false, lockstep: true, testnet: false, midstream: None });
     }
     v
 }
@@ -1281,7 +1380,10 @@ fn emit_case(c: &CaseOut, stats: &mut BTreeMap<String, u64>) {
             }
         }
     }
-    if c.json["scenario"].as_str().unwrap().ends_with("-testnet") {
+    if c.json["scenario"].as_str().unwrap().contains("-midstream") {
+        *stats.entry("midstream_cases".into()).or_default() += 1;
+    }
+    if c.json["scenario"].as_str().unwrap().contains("-testnet") {
         *stats.entry("testnet_cases".into()).or_default() += 1;
     }
     if c.json["scenario"].as_str().unwrap().contains("-lockstep") {
@@ -1615,6 +1717,55 @@ fn testnet(args: &Args) {
     emit("STATS", json!({"domain": "monitor-testnet", "stats": stats}));
 }
 
+/// channels set up between two chunks of a streamed block that then connects, is refused as an
+/// orphan, or belongs to a refused RemoveBlock; afterwards ordinary histories with restarts
+fn midstream(args: &Args) {
+    let mut rng = Rng::new(args.seed ^ 0x3157);
+    let mut stats = BTreeMap::new();
+    let base = scenarios();
+    let picks = [0usize, 2, 10, 14];
+    let kinds = [MidKind::Connects, MidKind::Orphan, MidKind::RefusedRemoval];
+    for k in 0..args.n {
+        let mut sc = base[picks[(k / 3) % picks.len()] % base.len()].clone();
+        sc.midstream = Some(kinds[k % 3]);
+        let w = make_world(&sc);
+        let u = make_universe(&sc, &w);
+        let has_s = u.txs.contains_key(&S);
+        let steps: Vec<Step> = if k < 6 {
+            vec![
+                Step::Add(vec![F], if k % 2 == 0 { Mode::Streamed } else { Mode::Compact }),
+                Step::Add(if has_s { vec![C, S] } else { vec![C] }, Mode::Watched),
+                Step::Restart,
+                Step::Remove(Mode::Compact),
+                Step::Add(vec![M], Mode::Streamed),
+                Step::Add(vec![], Mode::Watched),
+                Step::Remove(Mode::Watched),
+            ]
+        } else {
+            let len = 3 + rng.below(7) as usize;
+            let mut steps: Vec<Step> = random_history(&mut rng, &u, len, false)
+                .into_iter()
+                .map(|s| match s {
+                    Step::Remove(Mode::Streamed) => Step::Remove(Mode::Compact),
+                    o => o,
+                })
+                .collect();
+            let mut i = 1;
+            while i <= steps.len() {
+                if rng.chance(1, 5) {
+                    steps.insert(i, Step::Restart);
+                    i += 1;
+                }
+                i += 1;
+            }
+            steps
+        };
+        let c = run_case(&sc, &u, &steps, false, false, true, "midstream");
+        emit_case(&c, &mut stats);
+    }
+    emit("STATS", json!({"domain": "monitor-midstream", "stats": stats}));
+}
+
 fn main() {
     // one line per panic (most are the observations we are after), no backtraces
     std::panic::set_hook(Box::new(|info| {
@@ -1637,6 +1788,7 @@ fn main() {
         "burial" => burial(&args),
         "window" => window(&args),
         "testnet" => testnet(&args),
+        "midstream" => midstream(&args),
         _ => {
             eprintln!("usage: monitor systematic|random|malformed|burial --seed S --n N --tier T");
             std::process::exit(2);
